@@ -4,7 +4,12 @@ pub struct Rng(pub u64);
 
 impl Rng {
     pub fn new(seed: u64) -> Self {
-        Rng(seed.wrapping_mul(0x9E3779B97F4A7C15).wrapping_add(0x1234_5678_9ABC_DEF1))
+        // hash the seed: with a linear map, seeds k and k+1 would be the same stream shifted by
+        // one draw
+        let mut r = Rng(seed.wrapping_mul(0x9E3779B97F4A7C15).wrapping_add(0x1234_5678_9ABC_DEF1));
+        let a = r.next();
+        let b = r.next();
+        Rng(a ^ b.rotate_left(32) ^ seed.wrapping_mul(0xD6E8_FEB8_6659_FD93))
     }
     pub fn next(&mut self) -> u64 {
         self.0 = self.0.wrapping_add(0x9E3779B97F4A7C15);
